@@ -13,6 +13,10 @@ def not_rule(g):
     doc = gen_rules.rule(g, FEATS, depth=2)
     pos = g.pick(["leading", "inner", "trailing", "operand", "any"])
     x = gen_rules.inst_pat(g, 1, {"ops", "logic"})
+    if g.chance(0.15):
+        x = {"$not": [x]}                                   # nested: "$not $not X" consumes one instruction at which X holds
+    elif g.chance(0.15):
+        x = {"$and": [x, gen_rules.inst_pat(g, 0, {"ops"})]}  # an argument spanning several instructions
     n = {"$not": [x]}
     if g.chance(0.25):
         n["times"] = gen_rules.times_obj(g)
